@@ -1,8 +1,170 @@
 (* C08/Properties.v — the property theorems, nothing else. *)
-From Verif Require Import Common.Base C08.Model Generated.OtlpProto C08.Proofs.
+From Verif Require Import Common.Base C08.Model C08.Json Generated.OtlpProto Generated.C08JsonDecoders C08.Proofs.
 Local Open Scope N_scope.
 
-(* instance obligation, re-checked against the schema regenerated from the current tree *)
+(* ---- bit level -------------------------------------------------------------------------- *)
+Theorem varint_roundtrip : forall n r, n < two64 -> read_varint (varint n ++ r) = Some (n, r).
+Proof. exact varint_roundtrip_l. Qed.
+Print Assumptions varint_roundtrip.
+
+Theorem zigzag_roundtrip : forall m, m < two32 -> unzig32 (zig32 m) = m.
+Proof. exact zigzag_roundtrip_l. Qed.
+Print Assumptions zigzag_roundtrip.
+
+Theorem fixed_roundtrip : forall n r,
+  (n < two64 -> read_le 8 (le_bytes 8 n ++ r) = Some (n, r)) /\
+  (n < two32 -> read_le 4 (le_bytes 4 n ++ r) = Some (n, r)).
+Proof. intros n r. split; [apply fixed_roundtrip_l64|apply fixed_roundtrip_l32]. Qed.
+Print Assumptions fixed_roundtrip.
+
+Theorem tag_roundtrip : forall d wt r, fnum_ok d = true -> wt < 8 ->
+  exists w, read_varint (varint (tagv d wt) ++ r) = Some (w, r) /\ w mod 8 = wt /\ fieldnum_of w = Some (fnum d).
+Proof. exact tag_roundtrip_l. Qed.
+Print Assumptions tag_roundtrip.
+
+Theorem scalar_roundtrip : forall k n r, in_range k n = true -> read_scalar k (enc_scalar k n ++ r) = Some (n, r).
+Proof. exact scalar_roundtrip_l. Qed.
+Print Assumptions scalar_roundtrip.
+
+(* ---- the codec, for EVERY well-formed schema --------------------------------------------- *)
+(* Size() = len(Marshal()): every schema, every value tree (no hypothesis at all). *)
+Theorem proto_size : forall (S : schema) m v, size S m v = blen (encode S m v).
+Proof. exact proto_size_l. Qed.
+Print Assumptions proto_size.
+
+(* Unmarshal(Marshal(v)) = v: every well-formed schema, every canonical value whose encoding
+   is shorter than 2^64 bytes (a Go slice cannot be longer). *)
+Theorem proto_roundtrip : forall (S : schema), wf_schema S = true ->
+  forall m v, canonical S m v = true -> size S m v < two64 -> decode S m (encode S m v) = Some v.
+Proof. exact proto_roundtrip_l. Qed.
+Print Assumptions proto_roundtrip.
+
+(* The protobuf round trip for EVERY value that is well-typed up to the two normalisations the
+   code performs (norm: -0.0 in a singular double -> +0.0, nil []byte inside a oneof -> unset):
+   what comes back is the normalised value.  proto_roundtrip is the special case norm v = v. *)
+Theorem proto_roundtrip_norm : forall (S : schema), wf_schema S = true ->
+  forall m v, canonical S m (norm S m v) = true -> size S m v < two64 ->
+  decode S m (encode S m v) = Some (norm S m v).
+Proof. exact proto_roundtrip_norm_l. Qed.
+Print Assumptions proto_roundtrip_norm.
+
+Theorem encode_norm : forall (S : schema) m v, encode S m (norm S m v) = encode S m v.
+Proof. exact enc_norm_l. Qed.
+Print Assumptions encode_norm.
+
+(* Totality: decode is a Coq function (it cannot diverge or panic), and it never fails for lack
+   of fuel: every loop iteration and every nested call consumes at least one byte, so ANY fuel
+   >= |input| computes the same result as the fuel |input| that decode uses. *)
+Theorem proto_decode_total : forall (S : schema) m b fuel, (length b <= fuel)%nat ->
+  option_map VMsg (dec_fields S fuel (mfields (msg S m)) (mdefault (msg S m)) b) = decode S m b.
+Proof. exact decode_fuel_irrelevant_l. Qed.
+Print Assumptions proto_decode_total.
+
+(* Fixed point, PARTIAL: for whatever decodes, Marshal(Unmarshal(b)) re-decodes and re-encodes to
+   itself — under the hypothesis that the decoded value is canonical after normalisation.  That
+   hypothesis (an invariant of the decoder: shapes, ranges, at most one member per oneof) is not
+   proved here; Harness.check_case evaluates it on every decoded case of every run. *)
+Theorem proto_decode_fixpoint_partial : forall (S : schema), wf_schema S = true ->
+  forall m b v, decode S m b = Some v ->
+  canonical S m (norm S m v) = true -> size S m v < two64 ->
+  exists v', decode S m (encode S m v) = Some v' /\ encode S m v' = encode S m v.
+Proof. exact decode_fixpoint_l. Qed.
+Print Assumptions proto_decode_fixpoint_partial.
+
+(* ---- instance obligations, re-checked against the schema regenerated from the current tree -- *)
 Theorem otlp_schema_wf : wf_schema OtlpSchema = true.
 Proof. exact otlp_schema_wf_l. Qed.
 Print Assumptions otlp_schema_wf.
+
+Theorem otlp_proto_roundtrip : forall m v,
+  canonical OtlpSchema m v = true -> size OtlpSchema m v < two64 ->
+  decode OtlpSchema m (encode OtlpSchema m v) = Some v
+  /\ size OtlpSchema m v = blen (encode OtlpSchema m v).
+Proof. intros m v Hc Hs. split; [apply (proto_roundtrip_l OtlpSchema otlp_schema_wf_l); assumption|apply proto_size_l]. Qed.
+Print Assumptions otlp_proto_roundtrip.
+
+(* "decoding what the marshaler produced yields a payload EQUAL to the original" is false of the
+   code for -0.0 in a singular double (known finding C08-NEGZERO) and for a Bytes value holding nil
+   (C08-EMPTYBYTES): witnesses on the real schema. *)
+Theorem proto_roundtrip_refuted :
+  exists m v, canonical OtlpSchema m (norm OtlpSchema m v) = true
+              /\ decode OtlpSchema m (encode OtlpSchema m v) <> Some v.
+Proof. exact proto_roundtrip_refuted_l. Qed.
+Print Assumptions proto_roundtrip_refuted.
+
+(* the export-request wrappers: same layout, hence same bytes / size / decoding as the payload *)
+Theorem wrappers : forall p, In p wrapper_pairs ->
+  forall v b, encode OtlpSchema (fst p) v = encode OtlpSchema (snd p) v
+              /\ size OtlpSchema (fst p) v = size OtlpSchema (snd p) v
+              /\ decode OtlpSchema (fst p) b = decode OtlpSchema (snd p) b.
+Proof. exact wrappers_l. Qed.
+Print Assumptions wrappers.
+
+(* ---- the JSON half, at the tree level, for EVERY schema and EVERY decoder table --------------- *)
+(* UnmarshalJSON(MarshalJSON(v)) = v for every canonical value that the decoder table supports
+   (jok: every field the marshaler emits for v has a decoder case with the right reader, every
+   double is a non-NaN or the one NaN JSON can say) and that carries no deprecated scope field. *)
+Theorem json_roundtrip : forall (S : schema) (D : list jdec) (E : enums), wf_schema S = true ->
+  forall m v, canonical S m v = true -> jok S D m v = true -> migrate S m v = v ->
+  of_json S D E m (to_json S m v) = Some v.
+Proof. exact json_roundtrip_l. Qed.
+Print Assumptions json_roundtrip.
+
+(* decoding the JSON form and encoding the result as protobuf gives the bytes of the original *)
+Theorem json_proto_agree : forall (S : schema) (D : list jdec) (E : enums), wf_schema S = true ->
+  forall m v, canonical S m v = true -> jok S D m v = true -> migrate S m v = v ->
+  option_map (encode S m) (of_json S D E m (to_json S m v)) = Some (encode S m v).
+Proof. exact json_proto_agree_l. Qed.
+Print Assumptions json_proto_agree.
+
+(* a 64-bit integer written as a number or as a string is read to the same value by a dual reader;
+   an enum written as its name or as its number likewise *)
+Theorem json_int64_forms : forall e names k z, is64 k = true -> jnum e = true -> jstr e = true ->
+  oj_scalar e names k (JInt z) = oj_scalar e names k (JIntStr z).
+Proof. exact json_int64_forms_l. Qed.
+Print Assumptions json_int64_forms.
+
+Theorem json_enum_forms : forall e names name value, jnum e = true -> jname e = true ->
+  find (fun p => list_eqb N.eqb (fst p) name) names = Some (name, value) ->
+  in_range SEnum value = true ->
+  oj_scalar e names SEnum (JStr name) = oj_scalar e names SEnum (JInt (sgn64 value)).
+Proof. exact json_enum_forms_l. Qed.
+Print Assumptions json_enum_forms.
+
+(* ---- JSON instance obligations: the decoder table is re-observed on the running decoders and
+   these are re-proved on every check run --------------------------------------------------------- *)
+(* covers_partial: the decoder table covers every field of every message reachable from the four
+   request roots, under both spellings of the key and with the readers the property demands,
+   EXCEPT exactly the two recorded defects (Profile.original_payload read raw,
+   ValueType.aggregation_temporality without the name form). *)
+Theorem otlp_json_covers_partial :
+  uncovered OtlpSchema OtlpJsonDecoders OtlpJsonReachable
+  = [(m_profiles_v1development_Profile, 21); (m_profiles_v1development_ValueType, 3)].
+Proof. exact otlp_json_uncovered_l. Qed.
+Print Assumptions otlp_json_covers_partial.
+
+Theorem otlp_json_covers_refuted : covers OtlpSchema OtlpJsonDecoders OtlpJsonReachable = false.
+Proof. exact otlp_json_covers_refuted_l. Qed.
+Print Assumptions otlp_json_covers_refuted.
+
+Theorem otlp_json_int64_dual : dual64_ok = true.
+Proof. exact otlp_dual64_l. Qed.
+Print Assumptions otlp_json_int64_dual.
+
+Theorem otlp_json_enum_forms_partial : enums_uncovered = [(m_profiles_v1development_ValueType, 3)].
+Proof. exact otlp_enums_l. Qed.
+Print Assumptions otlp_json_enum_forms_partial.
+
+Theorem otlp_json_roundtrip : forall m v,
+  canonical OtlpSchema m v = true -> jok OtlpSchema OtlpJsonDecoders m v = true -> migrate OtlpSchema m v = v ->
+  of_json OtlpSchema OtlpJsonDecoders OtlpEnums m (to_json OtlpSchema m v) = Some v.
+Proof. exact (json_roundtrip_l OtlpSchema OtlpJsonDecoders OtlpEnums otlp_schema_wf_l). Qed.
+Print Assumptions otlp_json_roundtrip.
+
+(* the JSON round trip is false of the code on a field the table does not cover (known finding
+   C08-JSON-ORIGINALPAYLOAD): a witness on the real schema and the real decoder table *)
+Theorem json_roundtrip_refuted :
+  exists m v, canonical OtlpSchema m v = true /\ migrate OtlpSchema m v = v
+              /\ of_json OtlpSchema OtlpJsonDecoders OtlpEnums m (to_json OtlpSchema m v) <> Some v.
+Proof. exact json_roundtrip_refuted_l. Qed.
+Print Assumptions json_roundtrip_refuted.
